@@ -393,6 +393,14 @@ def _search_work(args):
             (rest if e.ctx in seen else first).append(e)
             seen.add(e.ctx)
         chosen = (first + rest)[:k]
+        if any(edits.place_of(e) for e in ss):
+            # operators that name the PLACE of the edit (the forbidden constructs: statement kind x position inside it): one
+            # site of EVERY place in every program, so that a check which stops running after one particular primary is seen
+            got = {edits.place_of(e) for e in chosen}
+            for e in first + rest:
+                if edits.place_of(e) not in got:
+                    got.add(edits.place_of(e))
+                    chosen.append(e)
         for e in chosen:
             r = probe_run(e.src, name)
             ok = edits.expect_ok(r, o.code, e.line)
@@ -539,6 +547,10 @@ def run(run, tier, seed, replay=None):
             s_ = per_op[it["op"]]
             s_["sites_tried"] += 1
             s_["contexts"].add(_ctx_key(it["ctx"]))
+            if it["ctx"][:1] == ("place",) or it["ctx"][:1] == ["place"]:
+                pl = s_.setdefault("places", {}).setdefault(it["ctx"][1], [0, 0])
+                pl[0] += 1
+                pl[1] += 1 if it["ok"] else 0
             if it["op"] not in seen_ops:
                 seen_ops.add(it["op"])
                 s_["programs_with_sites"] += 1
@@ -603,6 +615,8 @@ def run(run, tier, seed, replay=None):
                       "programs_with_sites": s_["programs_with_sites"], "distinct_contexts": nctx,
                       "sites_matching_a_known_predicate": s_["known_predicate_sites"],
                       "of_which_reported_anyway": s_["known_predicate_hits"]}
+        if s_.get("places"):
+            table[oid]["places_tried_reported"] = {pl: "%d/%d" % (v[1], v[0]) for pl, v in sorted(s_["places"].items())}
         run.count("search %s (%s)" % (oid, s_["code"]), s_["sites_tried"], nctx)
     for o in outs:
         if o["base_ok"] and o["results"]:
